@@ -191,10 +191,8 @@ def check_mutant(ctx, base, rule, pos, h, nontriv, model, ok_games):
             v = r.get("validate", {})
             if not v.get("outcome", "").startswith("ValueError"):
                 return f"implementation raises ValueError, model validate says {v}"
-            d_ = v.get("detail", "")
-            # WHICH rule is reported first is part of the recorded message (order of the checks)
-            if cat and cat != "empty" and not d_.startswith("min of empty") and not d_.startswith("max of empty") and cat != d_:
-                return f"first reported rule: implementation '{cat}', model '{d_}'"
+            # which of several broken rules is reported first is NOT compared: the property asks for a
+            # ValueError, and a harmless re-ordering of the validation must not raise an alarm
             return None
         model.add("validate", {"game": wire.pygame_payload(h), "thr": fbits(1e-6), "prune": True},
                   expect="ValueError", inp=inp, suite="corr.validate", cmp=cmp_rule)
